@@ -117,6 +117,21 @@ def run(ctx):
                 t, tid = cz.compile_traces(circuit, tid, rng, settings=(1,),
                                            meta={"kind": "order", "wrapper": w, "reg": reg, "phase_first": bool(pre)})
                 runs += t
+    # the same wrappers on three-qubit layouts that differ only in how the qubits split into emitters and photons
+    # (1e + 2p, 2e + 1p), alternating, through the long-lived compiler objects: the position of "emitter 0" in the state
+    # depends on the split, not only on the total
+    k = 0
+    for reg in (["e", 0], ["p", 0]):
+        for w in names if not ctx.quick else names[::2]:
+            for n_e, n_p in ((1, 2), (2, 1)):
+                k += 1
+                pre = [{"k": "Phase", "r": [reg], "c": None}] if k % 3 == 0 else []
+                prog = [{"k": "Hadamard", "r": [["e", 0]], "c": None}, {"k": "CNOT", "r": [["e", 0], ["p", 0]], "c": None}] + pre + \
+                       [{"k": "OneQubitGateWrapper", "r": [reg], "c": None, "w": w}]
+                circuit = cz.build_circuit(n_e, n_p, 0, prog)
+                t, tid = cz.compile_traces(circuit, tid, rng, settings=(1,),
+                                           meta={"kind": "order-split-layout", "wrapper": w, "reg": reg, "n_e": n_e, "n_p": n_p})
+                runs += t
     # one long-lived circuit per register type whose wrapper is exchanged in place (replace_op) and which is compiled
     # after every exchange - as the solvers do when they merge gates into an existing wrapper
     for reg in (["p", 0], ["e", 0]):
